@@ -166,6 +166,13 @@ pub fn suite_c01(ctx: &mut Ctx) {
                 ctx.call(ty, op, sp, &[a, b]);
             }
         }
+        // lone-low-bit products: a single sticky bit decides the rounding of the product
+        let nl = ctx.q(1500, 30_000);
+        let (lp, _) = lone_bit_cases(ctx, ty, nl);
+        for (i, &(a, b)) in lp.iter().enumerate() {
+            let (a, b) = if i % 2 == 0 { (a, b) } else { (gen::neg(ty.n, a), b) };
+            ctx.call(ty, "mul", ["m", "o", "a"][i % 3], &[a, b]);
+        }
         // uniform random
         for _ in 0..ctx.q(5_000, 100_000) {
             let a = gen::random_pattern(ty.n, &mut ctx.rng);
@@ -241,6 +248,18 @@ pub fn suite_c05(ctx: &mut Ctx) {
                 ctx.call(ty, op, sp, &[a, b, c]);
             }
         }
+        // lone-low-bit products + an addend that puts the rounding tie on them: the product's last bit
+        // is the only thing that tells the sum from an exact tie
+        let nl = ctx.q(3000, 60_000);
+        let (_, lt) = lone_bit_cases(ctx, ty, nl);
+        for (i, &(a, b, c)) in lt.iter().enumerate() {
+            let (a, c) = if i % 2 == 0 { (a, c) } else { (gen::neg(ty.n, a), gen::neg(ty.n, c)) };
+            match i % 3 {
+                0 => { ctx.call(ty, "mul_add", "m", &[a, b, c]); }
+                1 => { ctx.call(ty, "mul_sub", "m", &[a, b, gen::neg(ty.n, c)]); }
+                _ => { ctx.call(ty, "sub_product", "m", &[c, gen::neg(ty.n, a), b]); }
+            }
+        }
         // specials
         let sp = gen::specials(ty.n);
         for &a in &sp {
@@ -274,6 +293,37 @@ pub fn suite_c06(ctx: &mut Ctx) {
                         ctx.call(ty, "sqrt", "m", &[((s as i64 + d) as u64) & gen::mask(32)]);
                     }
                 }
+            }
+        }
+        if ty.n == 32 {
+            // hard cases (table-maker's dilemma): inputs whose exact root lies extremely close to a rounding
+            // midpoint.  For every odd 29-bit m (a midpoint of 28-bit root significands) m^2 is compared with
+            // the nearest representable input significand; the closest ones are kept.  (Input selection only.)
+            let keep_bits = if ctx.thorough { 13 } else { 17 }; // |distance| < 2^-keep_bits of an input ulp
+            let mut hard: Vec<u64> = Vec::new();
+            let mut m: u64 = (1 << 28) + 1;
+            while m < (1 << 29) {
+                let t = m * m; // in [2^56, 2^58)
+                let (sh, exp_bit) = if t < (1u64 << 57) { (29u32, 0u64) } else { (30u32, 1u64) };
+                let low = t & ((1u64 << sh) - 1);
+                let dist = low.min((1u64 << sh) - low);
+                if dist < (1u64 << (sh - keep_bits)) {
+                    let mant = (t + (1u64 << (sh - 1))) >> sh; // nearest 28-bit input significand (hidden bit included)
+                    if mant >= (1 << 27) && mant < (1 << 28) {
+                        let frac = mant & ((1 << 27) - 1);
+                        // P32E2 pattern at scale exp_bit + 4k' : use scales -4..=3 (two-bit regimes keep 27 fraction bits)
+                        for k in [-1i32, 0] {
+                            for e2 in [0u64, 2] {
+                                let e = exp_bit + e2; // same parity as exp_bit
+                                hard.push(gen::compose(32, 2, k, e as u32, frac));
+                            }
+                        }
+                    }
+                }
+                m += 2;
+            }
+            for &a in &hard {
+                ctx.call(ty, "sqrt", "m", &[a]);
             }
         }
         for &a in gen::specials(ty.n).iter() {
@@ -699,4 +749,60 @@ pub fn suite_c17(ctx: &mut Ctx) {
         }
     }
     crate::qdrive::spellings(ctx);
+}
+
+/// Products whose only information below the leading f bits is a single 1 at the very bottom
+/// (gen::lone_bit_pair), placed so that this bit alone decides a rounding tie:
+///  * for mul: scales chosen so that the result's last fraction bit is just above the zero run;
+///  * for the fused family: an addend c of the same sign, d binades above the product, whose ulp
+///    puts the tie exactly on the product's lowest set bit of the leading part.
+pub fn lone_bit_cases(ctx: &mut Ctx, ty: &Ty, count: usize) -> (Vec<(u64, u64)>, Vec<(u64, u64, u64)>) {
+    let n = ty.n;
+    let es = ty.es;
+    let f = gen::frac_bits(n, es, 0); // fraction bits of values in [1, 2)
+    let maxs = ((n - 2) << es) as i32;
+    let mut pairs = Vec::new();
+    let mut triples = Vec::new();
+    if f < 3 {
+        return (pairs, triples);
+    }
+    let mut tries = 0;
+    while (pairs.len() < count || triples.len() < count) && tries < count * 400 {
+        tries += 1;
+        let (u, v, w) = gen::lone_bit_pair(f, &mut ctx.rng);
+        let carry = (w >> f) as i32; // 1 + w/2^f >= 2 ?  (w < 2^(f+1))
+        let wl = w & gen::mask(f);
+        if wl == 0 {
+            continue;
+        }
+        let z = wl.trailing_zeros();
+        // operands at scales sa, sb whose regimes still leave all f fraction bits
+        let k0max = 0i32; // scale 0..(2^es - 1) keeps regime k = 0
+        let sa = ctx.rng.gen_range(0..(1 << es)) as i32 + k0max;
+        let sb = ctx.rng.gen_range(0..(1 << es)) as i32;
+        let a = gen::from_scale(n, es, sa, u << (64 - f));
+        let b = gen::from_scale(n, es, sb, v << (64 - f));
+        let sp = sa + sb + carry; // scale of the exact product
+        // the lowest set bit of the leading part has weight 2^(sp - (f - z) + carry)
+        let low_w = sp - carry - (f as i32 - z as i32);
+        // --- mul: wanted: result ulp = 2^(low_w + 1), i.e. nf(sp) = sp - low_w - 1
+        let want_nf = sp - low_w - 1;
+        if want_nf >= 0 && gen::frac_bits(n, es, sp.div_euclid(1 << es)) as i32 == want_nf && pairs.len() < count {
+            pairs.push((a, b));
+        }
+        // --- fused: addend at scale S = sp + d with ulp 2^(low_w + 1)
+        for d in 1..(f as i32 + 4) {
+            let s = sp + d;
+            if s > maxs {
+                break;
+            }
+            let nf = gen::frac_bits(n, es, s.div_euclid(1 << es)) as i32;
+            if s - nf == low_w + 1 && triples.len() < count {
+                let c = gen::from_scale(n, es, s, ctx.rng.gen::<u64>());
+                triples.push((a, b, c));
+                break;
+            }
+        }
+    }
+    (pairs, triples)
 }
